@@ -157,6 +157,16 @@ CLAIMED['C07'] = dict(
     technique='TLA+ routing model + TLC enumeration; spec->code replay with jax autodiff of the pure function as second oracle',
     design_ref='3/C07')
 
+CLAIMED['C08'] = dict(
+    text=('NnxLoop.tla: nnx.vmap / nnx.scan with StateAxes assigning Variable types to an axis (any position incl. negative, rank-3 stacks), '
+          'None or Carry, in/out axes, reverse, lengths 1..3, as the per-index call / Python loop over an integer body with a per-index Param '
+          'and a counter Variable; nnx.grad / value_and_grad with wrt filters (DiffState), argnums, has_aux: exactly the selected Variables '
+          'in the gradient State with exact integer values, forward side effects once; the same Module passed twice with different axis '
+          'specifications is rejected. All configurations (sampled in quick) are run with the real transforms and compared exactly, with '
+          'identity of the caller\'s Variables and jax.grad of the functional form as second oracle.'),
+    technique='TLA+ integer loop / selection model + TLC enumeration; spec->code replay',
+    design_ref='3/C08')
+
 NOT_YET = 'check not built yet in this round (planned, see DESIGN.md section 3); not claimed until its specification is bound to the code'
 ALL = ['C%02d' % i for i in range(1, 21)]
 
